@@ -89,7 +89,7 @@ Arguments CB {St}. Arguments cb_in {St}. Arguments cb_call {St}. Arguments cb_ou
 Record dstate : Type := DS {
   connected : bool;          (* SocketDriver.connected *)
   outq : list str;           (* Irc.fastqueue, PONG payloads only *)
-  outbuf : list str;         (* SocketDriver.outbuffer: PONG payloads taken from Irc but not yet written *)
+  outbuf : list str;         (* SocketDriver.outbuffer (bytes): PONG payloads encoded but not yet written *)
   sent : list str;           (* PONG payloads handed to conn.send, oldest first *)
   nfed : N;                  (* number of feedMsg calls so far *)
   fedl : list str }.         (* the lines given to feedMsg, newest first *)
@@ -261,7 +261,14 @@ Fixpoint take_all (fuel : nat) (acc : list str) (p : pstate) : pstate * list str
           let p0 := (set_outq q (fst p), snd p) in     (* fastqueue.dequeue() *)
           let '(p1, x) := run_outfilters a (rev cbs) p0 in
           match x with
-          | None => take_all fuel' (acc ++ [a]) p1
+          | None =>
+              (* self._truncateMsg(msg): msg_rest_str.encode('utf-8') inside takeMsg, under no try but the firewall *)
+              if negb gen.T07.TRUNCATE_ENCODES || encodable a then take_all fuel' (acc ++ [a]) p1
+              else
+                match through_fw (fw_irc s_takeMsg) (Some (XE UnicodeError)) with
+                | None => (p1, acc, None)              (* logged; takeMsg returns None: loop stops, [a] is dropped *)
+                | Some e' => (p1, acc, Some e')
+                end
           | Some e =>
               match through_fw (fw_irc s_takeMsg) (Some e) with
               | None => (p1, acc, None)                (* firewall makes takeMsg return None: loop stops, [a] is lost *)
@@ -272,18 +279,18 @@ Fixpoint take_all (fuel : nat) (acc : list str) (p : pstate) : pstate * list str
   end.
 
 (* SocketDriver._sendIfMsgs with a conn.send that accepts everything:
-     self.outbuffer += ''.join(map(str, msgs)); sent = self.conn.send(self.outbuffer.encode())
-   encode() is outside every try: a lone surrogate raises UnicodeEncodeError and the outbuffer stays *)
+     data = ''.join(map(str, msgs)).encode(); self.outbuffer += data; sent = self.conn.send(self.outbuffer)
+   outbuffer holds bytes; the encode of the messages just taken is outside every try: a lone surrogate would raise
+   UnicodeEncodeError there (the messages taken are lost, the outbuffer is untouched) *)
 Definition send_if_msgs (p : pstate) : pstate * option xc :=
   if connected (fst p) then
     let '(p', acc, x) := take_all (S (length (outq (fst p)))) [] p in
     match x with
     | Some e => (p', Some e)
     | None =>
-        let ob := outbuf (fst p') ++ acc in
-        if forallb encodable ob
-        then ((set_sent (sent (fst p') ++ ob) (set_outbuf [] (fst p')), snd p'), None)
-        else ((set_outbuf ob (fst p'), snd p'), Some (XE UnicodeError))
+        if forallb encodable acc
+        then ((set_sent (sent (fst p') ++ outbuf (fst p') ++ acc) (set_outbuf [] (fst p')), snd p'), None)
+        else (p', Some (XE UnicodeError))
     end
   else (p, None).
 
@@ -361,7 +368,7 @@ Definition drivers_run (ms : mstate) (rv : recv) : mstate :=
 
 Definition run_reads (rvs : list recv) (ms : mstate) : mstate := fold_left drivers_run rvs ms.
 
-(* ---- the domain of the survival theorem: every complete line of the stream is blank or parses,
+(* ---- the domain of the survival theorem: a line the parser rejects is skipped by the per-line guard of _read,
    and what it makes the bot echo can be encoded ---- *)
 (* what the bot echoes for this message is encodable: the PONG payload of a PING that doPing accepts *)
 Definition echo_ok (m : msg) : bool :=
@@ -370,7 +377,11 @@ Definition echo_ok (m : msg) : bool :=
   else true.
 
 Definition line_ok (l : bytes) : bool :=
-  match parse_msg (decode l) with Ok None => true | Ok (Some m) => echo_ok m | Raise _ => false end.
+  match parse_msg (decode l) with
+  | Ok None => true
+  | Ok (Some m) => echo_ok m
+  | Raise e => caught gen.T07.LOOP_GUARD_PARSE (XE e)      (* _read's per-line try/except logs and skips it *)
+  end.
 
 (* ... and conn.recv raises nothing but what _read's except clauses name *)
 Fixpoint dom (rvs : list recv) (buf : bytes) : bool :=
